@@ -173,12 +173,24 @@ def check_delegation(rep, facts):
                     ok = True
         (rep.ok if ok else rep.violation)("R9.1", raw.split("::")[-1] + "/delegates", "poll_input(cx, %s)" % ("Some(buf)" if want == 'Some' else "None") if ok else "does not delegate to poll_input with %s" % want, b.loc())
     # poll_fill_buf returns stream_buffer(); consume only calls consume_stream
-    fb = [bb for bb in facts.bodies if bb.path.startswith("<async_io::Request<'_, R, W> as futures_util::AsyncBufRead>::poll_fill_buf::{closure")]
-    okf = False
-    for cb in fb:
-        names = {F.norm(blk["t"]["func"].get("path", "")) for blk in cb.blocks if blk["t"]["k"] == "call"}
-        if E.STREAM_BUF in names and E.CONSUME_STREAM not in names:
-            okf = True
+    # (closure of `map_ok` or an explicit match: the closures handed to combinators are frames of the event graph)
+    import paths
+    pb = facts.body("<async_io::Request as futures_util::AsyncBufRead>::poll_fill_buf")
+    g = ieg.IEG(facts, pb, inline_filter=lambda x: False)
+    names = set()
+    okf = True
+    nready = 0
+    for r_ in paths.rows(g, max_paths=4000):
+        names |= {nm for (nm, args, nd) in r_.calls}
+        if r_.end != 'return' or r_.ret is None:
+            continue
+        ret = ir.peel(r_.ret)
+        if variant_of(ret) == 'Ready' and variant_of(agg_field(ret, 0)) == 'Ok':
+            nready += 1
+            if not any(x[0] == 'call' and x[1] == E.STREAM_BUF for x in ir.walk(agg_field(ir.peel(agg_field(ret, 0)), 0))):
+                okf = False
+    if not (E.STREAM_BUF in names and E.CONSUME_STREAM not in names):
+        okf = False
     (rep.ok if okf else rep.violation)("R9.1", "poll_fill_buf/returns-stream-buffer", "maps the result to parser.stream_buffer() without consuming" if okf else "poll_fill_buf does not return stream_buffer()", None)
     cb = facts.body("<async_io::Request as futures_util::AsyncBufRead>::consume")
     names = [F.norm(blk["t"]["func"]["res"]["path"] if blk["t"]["func"].get("res") else blk["t"]["func"].get("path", "")) for blk in cb.blocks if blk["t"]["k"] == "call"]
